@@ -295,7 +295,7 @@ func TestRacedLoops(t *testing.T) {
 		req := rapid.IntRange(1, 9).Draw(t, "req")
 		if rapid.IntRange(0, 4).Draw(t, "large") == 0 {
 			// requested capacities far above the usual ones: the rounding to a power of two and the index mask
-			req = rapid.SampledFrom([]int{1000, 65535, 65536, 65537, 70000, 131073, 131074, 196609, 262145, 1<<20 + 1}).Draw(t, "largeReq")
+			req = rapid.SampledFrom([]int{129, 257, 513, 514, 769, 1000, 1025, 4097, 65535, 65536, 65537, 70000, 131073, 131074, 196609, 262145, 1<<20 + 1}).Draw(t, "largeReq")
 		}
 		elem := rapid.SampledFrom([]int{0, 0, 1, 2, 3}).Draw(t, "elem")
 		return loopCase{Elem: elem, Req: req, Producers: rapid.IntRange(1, 4).Draw(t, "p"), Consumers: rapid.IntRange(1, 4).Draw(t, "c"),
